@@ -62,6 +62,7 @@ type c07Site struct {
 	group    []*c07Site      // all judged bindings of the same call, in source order
 	mode     syntax.CallMode // of the call
 	selfRef  string          // some `self.x` that resolves in the enclosing pipeline ("" if none)
+	isPipe   bool            // the callee is a pipeline
 }
 
 var c07BindRe = regexp.MustCompile(`^(\s*)([A-Za-z_][A-Za-z0-9_]*)(\s*=\s*)(split\s+)?(.*?),\s*$`)
@@ -74,6 +75,7 @@ type c07Mutant struct {
 	marker string       // text that must survive shrinking
 	lit    *c07Exp      // replacement literal (model double-check), with its type
 	t      *c17Ty
+	class  []string // when set: one of these must occur in the error text
 }
 
 func c07ReplaceLine(lines []string, i int, repl ...string) string {
@@ -127,6 +129,9 @@ func c07Sites(p *c07Prog, ast *syntax.Ast, lines []string) []*c07Site {
 			if st, ok := callable.(*syntax.Stage); ok && st != nil && st.InParams != nil {
 				s.stage = st
 				s.inParam = st.InParams.Table[b.Id]
+			}
+			if pl, ok := callable.(*syntax.Pipeline); ok && pl != nil {
+				s.isPipe = true
 			}
 			if sp, ok := b.Exp.(*syntax.SplitExp); ok {
 				if a, ok := sp.Value.(*syntax.ArrayExp); ok {
@@ -407,6 +412,115 @@ func c07Mutants(p *c07Prog, s *c07Site, lines []string) []c07Mutant {
 			}
 		}
 	}
+	out = append(out, c07StatementMutants(s, lines, m, extent)...)
+	return out
+}
+
+// c07StatementMutants: single-point mutations of the statement around the
+// binding (wildcards, modifiers, retain, duplicates), each illegal by
+// construction, with the error class the compiler must name.
+func c07StatementMutants(s *c07Site, lines []string, m []string, extent map[int]bool) []c07Mutant {
+	var out []c07Mutant
+	indent, expr := m[1], strings.TrimSpace(m[5])
+	closeIdx := s.last - 1 // 0-based index of the line that closes the binding list
+	closed := closeIdx < len(lines) && strings.TrimSpace(lines[closeIdx]) == ")"
+	wide := func(extra int) map[int]bool {
+		w := map[int]bool{}
+		for l := range extent {
+			w[l] = true
+		}
+		for i := 1; i <= extra; i++ {
+			w[s.last+i] = true
+		}
+		return w
+	}
+	insertAt := func(idx int, repl ...string) string {
+		o := append(append(append([]string{}, lines[:idx]...), repl...), lines[idx:]...)
+		return strings.Join(o, "\n")
+	}
+	replaceAt := func(ml []string, idx int, repl ...string) []string {
+		return append(append(append([]string{}, ml[:idx]...), repl...), ml[idx+1:]...)
+	}
+	// the same parameter bound twice
+	out = append(out, c07Mutant{kind: "duplicate-binding", src: insertAt(s.line, lines[s.line-1]), lines: wide(1),
+		marker: strings.TrimSpace(lines[s.line-1]), class: []string{"DuplicateBinding"}})
+	ref, isRef := s.b.Exp.(*syntax.RefExp)
+	base := s.t
+	for base.kind == 'a' || base.kind == 'm' {
+		base = base.elem
+	}
+	if isRef && !s.split && s.where != "top" && closeIdx < len(lines) && strings.HasPrefix(strings.TrimSpace(lines[closeIdx]), ")") {
+		// `x = self.x` and a wildcard over the inputs: x is bound twice
+		if ref.Kind == syntax.KindSelf && ref.Id == s.b.Id && ref.OutputId == "" {
+			text := indent + "* = self,"
+			out = append(out, c07Mutant{kind: "wildcard-duplicates-binding", src: insertAt(closeIdx, text), lines: wide(1),
+				marker: "* = self,", class: []string{"DuplicateBinding"}})
+		}
+		// a wildcard over something that is not a struct
+		if (base.kind == 'b' && base.name != "map") || base.kind == 'u' {
+			text := indent + "* = " + expr + ","
+			out = append(out, c07Mutant{kind: "wildcard-not-struct", src: insertAt(closeIdx, text), lines: wide(1),
+				marker: strings.TrimSpace(text), class: []string{"wildcard binding"}})
+		}
+	}
+	callRe := regexp.MustCompile(`^(\s*(?:map\s+)?call\s+)(.*)$`)
+	var cm []string
+	if s.where == "call" && s.first >= 1 && s.first <= len(lines) {
+		cm = callRe.FindStringSubmatch(lines[s.first-1])
+	}
+	plainCall := cm != nil && !strings.Contains(cm[2], "local ") && !strings.Contains(cm[2], "preflight ") && !strings.Contains(cm[2], "volatile ")
+	closeIndent := ""
+	if closed {
+		closeIndent = lines[closeIdx][:len(lines[closeIdx])-len(strings.TrimLeft(lines[closeIdx], " \t"))]
+	}
+	if s.where == "call" && plainCall {
+		// `disabled` bound to a reference that is not a bool
+		if isRef && !s.split && closed && !(s.t.kind == 'b' && s.t.name == "bool") {
+			ml := replaceAt(lines, closeIdx, closeIndent+") using (", indent+"disabled = "+expr+",", closeIndent+")")
+			out = append(out, c07Mutant{kind: "disabled-not-bool", src: strings.Join(ml, "\n"), lines: wide(3),
+				marker: "disabled = " + expr + ",", class: []string{"TypeMismatchError"}})
+		}
+		// a preflight call bound to the output of another call
+		if isRef && !s.split && ref.Kind == syntax.KindCall {
+			ml := replaceAt(lines, s.first-1, cm[1]+"preflight "+cm[2])
+			out = append(out, c07Mutant{kind: "preflight-bound-to-call", src: strings.Join(ml, "\n"), lines: extent,
+				marker: strings.TrimSpace(cm[1] + "preflight " + cm[2]), class: []string{"PreflightBindingError"}})
+		}
+		if len(s.group) > 0 && s.group[0] == s {
+			// stage-only modifiers on a pipeline
+			if s.isPipe {
+				for _, kw := range []string{"local", "volatile", "preflight"} {
+					ml := replaceAt(lines, s.first-1, cm[1]+kw+" "+cm[2])
+					out = append(out, c07Mutant{kind: "modifier-on-pipeline", src: strings.Join(ml, "\n"), lines: extent,
+						marker: strings.TrimSpace(cm[1] + kw + " " + cm[2]), class: []string{"UnsupportedTagError"}})
+				}
+			}
+			// a modifier given as keyword and in `using`
+			if s.stage != nil && closed {
+				for _, kw := range []string{"local", "volatile"} {
+					ml := replaceAt(lines, closeIdx, closeIndent+") using (", indent+kw+" = true,", closeIndent+")")
+					ml = replaceAt(ml, s.first-1, cm[1]+kw+" "+cm[2])
+					out = append(out, c07Mutant{kind: "conflicting-modifiers", src: strings.Join(ml, "\n"), lines: wide(3),
+						marker: kw + " = true,", class: []string{"ConflictingModifiers"}})
+				}
+				ml := replaceAt(lines, closeIdx, closeIndent+") using (", indent+"volatile = true,", indent+"volatile = false,", closeIndent+")")
+				out = append(out, c07Mutant{kind: "modifier-twice", src: strings.Join(ml, "\n"), lines: wide(4),
+					marker: "volatile = false,", class: []string{"DuplicateBinding"}})
+			}
+		}
+	}
+	// retain of something that is not of file type
+	if s.where == "return" && isRef && !s.split && closed && base.kind == 'b' && (base.name == "int" || base.name == "float" || base.name == "bool") {
+		next := closeIdx + 1
+		for next < len(lines) && strings.TrimSpace(lines[next]) == "" {
+			next++
+		}
+		if next < len(lines) && strings.TrimSpace(lines[next]) == "}" {
+			src := insertAt(closeIdx+1, closeIndent+"retain (", indent+expr+",", closeIndent+")")
+			out = append(out, c07Mutant{kind: "retain-not-file", src: src, lines: map[int]bool{s.last + 1: true, s.last + 2: true, s.last + 3: true},
+				marker: strings.TrimSpace(indent + expr + ","), class: []string{"RetainParamError"}})
+		}
+	}
 	return out
 }
 
@@ -582,6 +696,20 @@ func c07MutationOracle(c *Ctx) {
 					// error is reported first and masks the type error
 					r.hist("mut_masked_by_unused_input")
 					continue
+				}
+				if len(m.class) > 0 {
+					found := false
+					for _, kw := range m.class {
+						if strings.Contains(err.Error(), kw) {
+							found = true
+						}
+					}
+					if !found {
+						r.violate(Violation{Kind: "property", Key: "C07:error-class:" + m.kind,
+							What:   "the compile error for a mutation that is illegal by construction (" + m.kind + ") does not name the expected error class",
+							Input:  map[string]interface{}{"program": m.src, "origin": p.name, "mutation": m.kind, "mutated_binding": m.marker, "error": err.Error()},
+							Expect: strings.Join(m.class, " | "), Impl: firstLine(err.Error())})
+					}
 				}
 				hit, any := false, false
 				var got []int
